@@ -360,6 +360,7 @@ def _flatten_agreement(ctx: Ctx):
     for rel, construct, msg, ln in hits:
         ctx.fail("no-cross-run-state", construct, msg, rel, ln)
     ctx.ok("no-cross-run-state", {"containers_examined": nstate})
+    del flatten.MUTATED[:]
     spec, structs = flatten.lattice()
     impls = [
         ("python", P_PYUTILS, lambda s: flatten.fold_python(idx, spec, structs, s)),
@@ -380,6 +381,11 @@ def _flatten_agreement(ctx: Ctx):
                           f"{got.get(k)!r}; the nearest declaration is {exp.get(k)!r} (own > extends/mixins depth first)",
                           rel, None, sample={"plugin": plugin, "struct": sname, "prop": k, "owner": got.get(k)})
     ctx.floor("flattening folds", n, 12)
+    for what, sname in sorted(set(flatten.MUTATED)):
+        ctx.fail("flatten-leaves-model-untouched", f"{what.split('/')[2]}:struct={sname}",
+                 f"flattening {sname} in {what} changes the property lists of the model it was given: the next structure "
+                 "(or the next plugin run on the same model) sees properties that were never declared there", what, None)
+    del flatten.MUTATED[:]
     names = flatten.fold_rust_inherited_literal(idx)
     ok = len(set(names)) == 1 and isinstance(names[0], str) and names[0] and not names[0].startswith("<")
     ctx.check(ok, "literal-types-named", "rust:inherited-literal",
